@@ -335,7 +335,7 @@ class Verdict:
             print("MODEL-DIVERGENCE: property=%s %s" % (self.prop, d))
         for k, (n, f) in self.known_hits.items():
             print("KNOWN-FINDING: property=%s %s [%s, %d case(s) in this run]" % (self.prop, f["what"], k, n))
-        for v in self.violations[:20]:
+        for v in self.violations[:int(os.environ.get("KV_MAXVIOL", "20"))]:
             print("VIOLATION property=%s replay=%s  (%s)" % (self.prop, v["replay"], v["what"]))
         print("%s %s: %d evaluations, %d distinct non-trivial, %d TLC states, %d traces validated, %d violations, %.1fs"
               % (self.prop, self.tier, self.evaluations, len(self.nontrivial), self.states, self.traces, len(self.violations), wall))
